@@ -49,6 +49,9 @@ def cases(prop, tier, seed):
         # a structured case (independent of the seed) behind the recorded finding KF-C02-labeled-index-candidates-others
         out.append({"kind": "query", "cls": "Badge", "dseed": 195584138, "n": 9, "nl": 1, "dup": "grid", "mode": "idx", "b": 2, "sseed": 13,
                     "key": ["Badge", 9, 1, "grid", "idx", 2, "labeled-candidates"]})
+        # ... and behind KF-C01-labeled-index-candidates-badge
+        out.append({"kind": "query", "cls": "Badge", "dseed": 128237792, "n": 7, "nl": 2, "dup": "grid", "mode": "idx", "b": 5, "sseed": 39,
+                    "key": ["Badge", 7, 2, "grid", "idx", 5, "labeled-candidates-raises"]})
         return out
     if prop == "C14":
         per = 10 if tier == "quick" else 80
